@@ -152,11 +152,29 @@ def gen_mgs_same_values(rng):
             "partition": parts, "remove_complement": rng.random() < 0.85}
 
 
+def gen_mgs_nothing_left(rng):
+    """every number is 0 or the total (nothing is left after the preprocessing) but partition constraints are given: the
+    answer is decided by the constraints alone"""
+    total = rng.randint(3, 9)
+    a = rng.randint(1, total - 1)
+    parts = [[a, total - a]]
+    if rng.random() < 0.4 and total >= 4:
+        b = rng.randint(1, total - 2)
+        parts.append([b, 1, total - b - 1])
+    wint = rng.random() < 0.6
+    return {"cls": "MinGenSet", "unit": "1" if wint else "1/2", "numbers": rng.choice([[], [total], [total, 0], [0]]), "total": total,
+            "weight_type": "int" if wint else "float", "max_multiplicity": 1, "lowerbound": rng.choice([1, 1, 0]),
+            "partition": parts, "remove_complement": rng.random() < 0.85}
+
+
 def gen_mgs(rng, thorough=False):
-    if rng.random() < 0.06:
+    r_ = rng.random()
+    if r_ < 0.06:
         inst = gen_mgs_same_values(rng)
         if inst is not None:
             return inst
+    elif r_ < 0.10:
+        return gen_mgs_nothing_left(rng)
     wint = rng.random() < 0.55
     unit = Fraction(1) if wint else rng.choice([Fraction(1), Fraction(1, 2), Fraction(1, 2), Fraction(1, 8)])
     mult = 1 if rng.random() < 0.6 else rng.randint(2, 3)
@@ -432,7 +450,31 @@ def cap_matters(inst, expect):
 POOL = [1, 2, 3, 4, "a", "b", "c", "x.0"]
 
 
+def gen_msc_near_tie(rng):
+    """one big subset against a cover by several small ones that is lighter by a small margin (dyadic weights): an objective
+    that also counts subsets, however lightly, picks the wrong one"""
+    m = rng.randint(2, 4)
+    pool = rng.sample(POOL, m + rng.randint(0, 1))
+    universe = pool[:m]
+    small = [[x] for x in universe]
+    if m >= 3 and rng.random() < 0.5:
+        small = [universe[:2]] + [[x] for x in universe[2:]]
+    unit = rng.choice([Fraction(1, 2), Fraction(1, 4), Fraction(3, 8)])
+    ws = [unit] * len(small)
+    big_w = sum(ws) + rng.choice([Fraction(1, 8), Fraction(1, 16), Fraction(1, 4)])
+    subsets = small + [list(universe)]
+    weights = [float(x) for x in ws] + [float(big_w)]
+    extra = rng.randint(0, 2)                      # a few irrelevant subsets (they dilute any per-subset penalty)
+    for _ in range(extra):
+        subsets.append([rng.choice(pool)]); weights.append(float(rng.choice([2, 3])))
+    order = list(range(len(subsets))); rng.shuffle(order)
+    return {"cls": "MinSetCover", "universe": universe, "subsets": [subsets[i] for i in order], "weights": [weights[i] for i in order],
+            "containers": [rng.choice(["list", "set", "tuple"]) for _ in subsets]}
+
+
 def gen_msc(rng):
+    if rng.random() < 0.08:
+        return gen_msc_near_tie(rng)
     pool = rng.sample(POOL, rng.randint(1, 6))
     universe = rng.sample(pool, rng.randint(0, len(pool)))
     if rng.random() < 0.1 and universe:
